@@ -1,3 +1,16 @@
--- stub: the driver of C01 is not built yet
 import WmModel.Basic
-def main : IO Unit := Wm.driverMain (fun _ => "bad-op")
+import WmModel.PipelineMon
+open Wm
+
+/-- `M pl …` → conformance of the recorded trace with the Pipeline model (`ok` | `stuck` | `reject:…`);
+    `P pl … ## obs` → the C01 monitor on the same trace (`ok` | `violated:<rule>`). -/
+def handle (line : String) : String :=
+  let req := match line.splitOn " ## " with
+    | [r, _] => r
+    | _ => line
+  match req.splitOn " " with
+  | "M" :: fields => Wm.Pipeline.Mon.conformance fields
+  | "P" :: fields => Wm.Pipeline.Mon.monitor fields
+  | _ => "bad-op"
+
+def main : IO Unit := driverMain handle
